@@ -2,6 +2,7 @@ package checks
 
 import (
 	"net"
+	"sync/atomic"
 
 	"github.com/hugelgupf/p9/p9"
 
@@ -52,8 +53,22 @@ type sess struct {
 	Srv *p9.Server
 }
 
+// newSess starts a lock-step session. Every third session of a process runs
+// over an AF_UNIX socket pair instead of net.Pipe: the property checks are about
+// the protocol, not the transport, so the server's vectorised receive path and
+// its writev send path get the same workloads as the generic ones.
 func newSess(srv *p9.Server, msize uint32, version string) (*sess, rawpeer.Result) {
-	return newSessOn(srv, msize, version, nil)
+	return newSessOn(srv, msize, version, altTransport())
+}
+
+var sessCounter uint64
+
+// altTransport returns socket-pair options for every third call, nil otherwise.
+func altTransport() *rawpeer.Options {
+	if atomic.AddUint64(&sessCounter, 1)%3 == 0 {
+		return sockOpts()
+	}
+	return nil
 }
 
 // sockOpts makes a raw peer talk to the server over an AF_UNIX socket pair
